@@ -1,6 +1,6 @@
 SPECIFICATION MCSpec
 CONSTANTS
-  Kinds = {"honest", "poison_spent"}
+  Kinds = {"honest", "poison_spent", "split_root"}
   BatchSize = 2
   ValidateFirst = TRUE
   RootCheck = TRUE
